@@ -301,7 +301,18 @@ class SimpleJSONRPCDispatcher(SimpleXMLRPCDispatcher, object):
             response = self._unmarshaled_dispatch(request, dispatch_method)
             if response is not None:
                 # Compute the string representation of the dictionary/list
-                return jsonrpclib.jdumps(response, self.encoding)
+                try:
+                    return jsonrpclib.jdumps(response, self.encoding)
+                except Exception as ex:
+                    # The response can't be converted to JSON (e.g. the ID
+                    # of the request was loaded as a bean)
+                    fault = Fault(
+                        -32603,
+                        "{0}:{1}".format(type(ex).__name__, ex),
+                        config=self.json_config,
+                    )
+                    _logger.error("Error preparing JSON-RPC result: %s", fault)
+                    return fault.response()
             else:
                 # No result (notification)
                 return ""
